@@ -217,4 +217,41 @@ theorem stepThread_pstep {s t tid alt} : PStep s t tid alt := by
   · exact pstep_g5 hg lbl s' t' h hk hne
   · exact pstep_g6 hg lbl s' t' h hk hne
 
+
+/-! ### once enqueueing is done no producer parks again -/
+
+def NoParkStep (s : Shared) (t : Thread) (tid : Tid) (alt : Bool) : Prop :=
+  ∀ lbl s' t', stepThread s t tid alt = some (lbl, s', t') → s.enqueueDone = true →
+    t'.pc ≠ .pWait ∧ (t.pc = .pPut → t'.pc = .pExit ∨ t'.pc = .pStAcq) ∧
+    (t.pc = .sRel ∨ t.pc = .pRet ∨ t.pc = .pExit → t'.pc = .done)
+
+set_option hygiene false in
+macro "nopark_group" : tactic => `(tactic| (
+  intro lbl s' t' h hd
+  unfold stepThread at h
+  cases hpc : t.pc <;> (try (simp only [hpc, Pc.group] at hg; omega)) <;>
+    simp only [hpc] at h <;>
+    (try simp only [acquire, release, notify, waitPark, waitWake, goto, enqLoop, putLoop, batchLoop,
+      afterRaise, afterValue] at h) <;>
+    (repeat' split at h) <;>
+    (try simp only [Option.some.injEq, Prod.mk.injEq, reduceCtorEq] at h) <;>
+    (try (obtain ⟨-, rfl, rfl⟩ := h)) <;>
+    simp_all))
+
+theorem nopark_g0 {s t tid alt} (hg : t.pc.group = 0) : NoParkStep s t tid alt := by nopark_group
+theorem nopark_g1 {s t tid alt} (hg : t.pc.group = 1) : NoParkStep s t tid alt := by nopark_group
+theorem nopark_g2 {s t tid alt} (hg : t.pc.group = 2) : NoParkStep s t tid alt := by nopark_group
+theorem nopark_g3 {s t tid alt} (hg : t.pc.group = 3) : NoParkStep s t tid alt := by nopark_group
+theorem nopark_g4 {s t tid alt} (hg : t.pc.group = 4) : NoParkStep s t tid alt := by nopark_group
+theorem nopark_g5 {s t tid alt} (hg : t.pc.group = 5) : NoParkStep s t tid alt := by nopark_group
+theorem nopark_g6 {s t tid alt} (hg : t.pc.group = 6) : NoParkStep s t tid alt := by nopark_group
+theorem nopark_g7 {s t tid alt} (hg : t.pc.group = 7) : NoParkStep s t tid alt := by nopark_group
+
+theorem stepThread_nopark {s t tid alt} : NoParkStep s t tid alt := by
+  have h := Pc.group_lt t.pc
+  match hg : t.pc.group with
+  | 0 => exact nopark_g0 hg | 1 => exact nopark_g1 hg | 2 => exact nopark_g2 hg | 3 => exact nopark_g3 hg
+  | 4 => exact nopark_g4 hg | 5 => exact nopark_g5 hg | 6 => exact nopark_g6 hg | 7 => exact nopark_g7 hg
+  | n + 8 => omega
+
 end MlModel.Queue
